@@ -37,6 +37,11 @@ pub struct PipeState {
     pub tear_at: Option<u64>,
     pub tear_stage: u8,
     pub torn_pending_at: Option<u64>,      // when the refused retry happened
+    /// M3 transport: free room (None = unlimited) and the schedule of instants (ms) that set it; active when
+    /// `wsched_on` (the harness wakes the writer at every instant of the schedule)
+    pub wsched_on: bool,
+    pub wcap: Option<usize>,
+    pub wsched: VecDeque<(u64, Option<usize>)>,
 }
 
 #[derive(Clone)]
@@ -52,6 +57,7 @@ impl Pipe {
                 start: Instant::now(), inq: VecDeque::new(), eof: false, rd_waker: None, wr_waker: None,
                 out_log: Vec::new(), out_seq: Vec::new(), write_script: VecDeque::new(), reads: Vec::new(), write_calls: Vec::new(),
                 shutdown: false, max_read_chunk: 0, tear_at: None, tear_stage: 0, torn_pending_at: None,
+                wsched_on: false, wcap: None, wsched: VecDeque::new(),
             })),
             out_notify: Arc::new(Notify::new()),
         }
@@ -102,6 +108,11 @@ impl AsyncWrite for ServerEnd {
         if let Some(ta) = s.tear_at {
             if t >= ta && s.tear_stage == 0 && buf.len() > 3 { s.tear_stage = 1; resp = WriteResp::Accept(3); }
             else if s.tear_stage == 1 { s.tear_stage = 2; s.torn_pending_at = Some(t); resp = WriteResp::Pending; }
+        }
+        if s.wsched_on {
+            while let Some((te, c)) = s.wsched.front().cloned() { if te <= t { s.wcap = c; s.wsched.pop_front(); } else { break; } }
+            resp = match s.wcap { None => WriteResp::Accept(usize::MAX), Some(0) => WriteResp::Pending, Some(n) => WriteResp::Accept(n) };
+            if let (Some(n), false) = (s.wcap, buf.is_empty()) { s.wcap = Some(n - n.min(buf.len())); }
         }
         match resp {
             WriteResp::Pending => {
